@@ -18,3 +18,6 @@ for f in d["findings"]:
 d["findings"] = keep
 json.dump(d, open(p, "w"), indent=1)
 print(stem, fid, "->fixed", commit, "open left:", [f["id"] for f in keep])
+
+import subprocess
+subprocess.run(["/venv/bin/python", "/verif/harness/mkfindings.py"], capture_output=True)
